@@ -949,6 +949,8 @@ func (e *eng) Exec(op []string) (res string) {
 	case "answer":
 		c := e.client(a(1))
 		c.answer(op[2])
+	case "pushrace":
+		return e.pushrace()
 	default:
 		panic("unknown op " + op[0])
 	}
@@ -1583,6 +1585,12 @@ func gen(t *common.Trace, e common.Engine, r *common.Rng, thorough bool) {
 				break
 			}
 		}
+	}
+	// a track that arrives while the previous track's delayed push is being distributed (own verdict)
+	for i := 0; i < 2; i++ {
+		t.Case(fmt.Sprintf("pushrace%d", i))
+		e.Reset()
+		common.Do(t, e, "pushrace")
 	}
 	ncases := 9
 	if thorough {
